@@ -138,6 +138,7 @@ static bool expect(Stage1Parser *p, TokenType type, const char *msg) {
 /* Forward declarations */
 static ASTNode *parse_statement(Stage1Parser *p);
 static ASTNode *parse_expression(Stage1Parser *p);
+static ASTNode *parse_operand_postfix(Stage1Parser *p, ASTNode *operand);
 static ASTNode *parse_block(Stage1Parser *p);
 static ASTNode *parse_struct_def(Stage1Parser *p);
 static ASTNode *parse_enum_def(Stage1Parser *p);
@@ -1290,6 +1291,8 @@ static ASTNode *parse_unary_operand(Stage1Parser *p) {
         return NULL;
     }
     ASTNode *operand = parse_primary(p);
+    /* postfix binds tighter than the unary operator: `not p.b` is `not (p.b)`, `-t.0` is `-(t.0)` */
+    operand = parse_operand_postfix(p, operand);
     p->recursion_depth--;
     return operand;
 }
@@ -2341,6 +2344,38 @@ static ASTNode *parse_if_expression(Stage1Parser *p) {
     return node;
 }
 
+/* Postfix operators of an operand that is not the leftmost one of an expression:
+ * `.field` (field access) and `.N` (tuple index) bind tighter than any infix or unary
+ * operator, so `a + p.x` is `a + (p.x)` and `-t.0` is `-(t.0)`.  The leftmost operand is
+ * handled by the loop in parse_expression (which also knows union construction).
+ */
+static ASTNode *parse_operand_postfix(Stage1Parser *p, ASTNode *operand) {
+    while (operand && match(p, TOKEN_DOT)) {
+        Token *next = peek_token(p, 1);
+        if (!next || (next->token_type != TOKEN_NUMBER && next->token_type != TOKEN_IDENTIFIER)) {
+            break;  /* let parse_expression report the error */
+        }
+        Token *dot_tok = current_token(p);
+        int line = dot_tok->line;
+        int column = dot_tok->column;
+        advance(p);  /* consume '.' */
+        Token *tok = current_token(p);
+        if (tok->token_type == TOKEN_NUMBER) {
+            ASTNode *index_node = create_node(AST_TUPLE_INDEX, line, column);
+            index_node->as.tuple_index.tuple = operand;
+            index_node->as.tuple_index.index = (int)atoll(tok->value);
+            operand = index_node;
+        } else {
+            ASTNode *field_access = create_node(AST_FIELD_ACCESS, line, column);
+            field_access->as.field_access.object = operand;
+            field_access->as.field_access.field_name = strdup(tok->value ? tok->value : "");
+            operand = field_access;
+        }
+        advance(p);  /* consume field name / index */
+    }
+    return operand;
+}
+
 /* Parse expression */
 static ASTNode *parse_expression(Stage1Parser *p) {
     /* Recursion depth guard */
@@ -2544,6 +2579,8 @@ static ASTNode *parse_expression(Stage1Parser *p) {
                     p->recursion_depth--;
                     return expr;
                 }
+                /* the right operand takes its own postfix operators: a + p.x is a + (p.x) */
+                right = parse_operand_postfix(p, right);
 
                 /* Create binary operation node (reuses AST_PREFIX_OP) */
                 ASTNode *bin_node = create_node(AST_PREFIX_OP, op_line, op_col);
